@@ -687,6 +687,9 @@ class Engine:
                         org = "debug-assert"  # internal-invariant check, compiled out of release builds
                     s2["origin"] = org
                 d["origin"] = s2["origin"]
+            if e.tag is not None and e.exit == "ret" and isinstance(d, dict):
+                d = dict(d)
+                d["tag"] = e.tag
             emit(s2, kind, bb, t["span"], v, d)
             if dest_local is not None:
                 s2["consts"].pop(dest_local, None)
